@@ -46,9 +46,22 @@ Proof. exact parse_go_prefix. Qed.
 Print Assumptions C15_parse_go_prefix.
 Theorem C15_parse_shape : forall s v, parse_go_version s = Some v ->
   trim_prefix "go" s = "" /\ v = (0, 0)
-  \/ exists a b, split_on "."%char (trim_prefix "go" s) = [a; b] /\ atoi a = Some (fst v) /\ atoi b = Some (snd v).
+  \/ exists a b, split_on "."%char (trim_prefix "go" s) = [a; b] /\ version_part a = Some (fst v) /\ version_part b = Some (snd v).
 Proof. exact parse_shape. Qed.
 Print Assumptions C15_parse_shape.
+(* ... whose parts are unsigned decimal numbers: an accepted version has non-negative components and every
+   part starts with a digit (no sign).  Before repository commit 43195e2 "1.-5" and "+1.+5" were accepted. *)
+Theorem C15_parse_nonneg : forall s v, parse_go_version s = Some v -> 0 <= fst v /\ 0 <= snd v.
+Proof. exact parse_nonneg. Qed.
+Print Assumptions C15_parse_nonneg.
+Theorem C15_version_part_first_digit : forall a r n, version_part (String a r) = Some n -> exists d, digit_val a = Some d.
+Proof. exact version_part_first_digit. Qed.
+Print Assumptions C15_version_part_first_digit.
+Theorem C15_parse_prefix_accepts_signs_refuted :
+  parse_go_version_prefix "1.-5" = Some (1, -5) /\ parse_go_version_prefix "+1.+5" = Some (1, 5)
+  /\ parse_go_version "1.-5" = None /\ parse_go_version "+1.+5" = None.
+Proof. exact parse_prefix_accepts_signs_refuted. Qed.
+Print Assumptions C15_parse_prefix_accepts_signs_refuted.
 
 (* Plumbing: all three kinds of checkers consult the configured version ... *)
 Theorem C15_plumbing : forall k v, run_version k v = v.
